@@ -1,10 +1,85 @@
-//! `vrun` — the one binary all checks use.
+//! `vrun` — the generic binary: batch worker for program / history / multi-configuration jobs, plus the
+//! `realms` job kind (several realms inside ONE context, values passed between them by the host).
 #![allow(missing_docs)]
-use serde_json::Value;
+use boa_engine::{Context, JsValue, Script, Source, js_string, realm::Realm};
+use serde_json::{Value, json};
+
+/// `{"kind":"realms","steps":[{"realm":k,"src":S} | {"pass":{"from":a,"name":"x","to":b,"as":"y"}}],"cfg":{..}}`
+/// Realm 0 is the context's default realm; further realms are created on first use (host functions and prelude
+/// are installed in each). Each `src` step is parsed and evaluated in its realm; result per step like a case.
+fn realms_job(job: &Value) -> Value {
+    let cfg = vcore::Cfg::from_json(job.get("cfg").unwrap_or(&Value::Null));
+    let mut ctx = vcore::make_context(&cfg);
+    let mut realms: Vec<Realm> = vec![ctx.realm().clone()];
+    let mut outs = Vec::new();
+    for step in job["steps"].as_array().expect("steps") {
+        if let Some(p) = step.get("pass") {
+            let from = p["from"].as_u64().expect("from") as usize;
+            let to = p["to"].as_u64().expect("to") as usize;
+            ensure(&mut ctx, &mut realms, from.max(to), &cfg);
+            let old = ctx.enter_realm(realms[from].clone());
+            let v = ctx
+                .global_object()
+                .get(js_string!(p["name"].as_str().expect("name")), &mut ctx)
+                .unwrap_or_default();
+            ctx.enter_realm(realms[to].clone());
+            ctx.global_object()
+                .set(js_string!(p["as"].as_str().expect("as")), v, false, &mut ctx)
+                .expect("set");
+            ctx.enter_realm(old);
+            outs.push(json!({"lines": [], "completion": "Passed"}));
+            continue;
+        }
+        let k = step["realm"].as_u64().expect("realm") as usize;
+        ensure(&mut ctx, &mut realms, k, &cfg);
+        let src = step["src"].as_str().expect("src");
+        vcore::take_lines();
+        let old = ctx.enter_realm(realms[k].clone());
+        let completion = match Script::parse(Source::from_bytes(src.as_bytes()), Some(realms[k].clone()), &mut ctx) {
+            Err(_) => "EarlySyntaxError".to_string(),
+            Ok(s) => {
+                let r = s.evaluate(&mut ctx);
+                match r {
+                    Ok(v) => format!("Value {}", render(&mut ctx, &v)),
+                    Err(e) => vcore::completion_of_err(&mut ctx, e),
+                }
+            }
+        };
+        let _ = ctx.run_jobs();
+        ctx.enter_realm(old);
+        outs.push(json!({"lines": vcore::take_lines(), "completion": completion, "x": {"d1": vcore::depths_json(&ctx)}}));
+    }
+    json!({"steps": outs})
+}
+
+/// Render with the `__show` of the realm that is current (each realm has its own prelude).
+fn render(ctx: &mut Context, v: &JsValue) -> String {
+    let f = ctx.global_object().get(js_string!("__show"), ctx).unwrap_or_default();
+    match f.as_callable() {
+        Some(f) => f
+            .call(&JsValue::undefined(), std::slice::from_ref(v), ctx)
+            .ok()
+            .and_then(|s| s.to_string(ctx).ok())
+            .map_or_else(|| "?".into(), |s| s.to_std_string_escaped()),
+        None => v.display().to_string(),
+    }
+}
+
+fn ensure(ctx: &mut Context, realms: &mut Vec<Realm>, k: usize, cfg: &vcore::Cfg) {
+    while realms.len() <= k {
+        let r = ctx.create_realm().expect("create_realm");
+        let old = ctx.enter_realm(r.clone());
+        vcore::install_host(ctx, cfg.prelude, false);
+        ctx.enter_realm(old);
+        realms.push(r);
+    }
+}
 
 fn custom(job: &Value) -> Value {
-    let kind = job["kind"].as_str().unwrap_or("");
-    panic!("unknown job kind {kind}");
+    match job["kind"].as_str().unwrap_or("") {
+        "realms" => realms_job(job),
+        k => panic!("unknown job kind {k}"),
+    }
 }
 
 fn main() {
